@@ -174,6 +174,12 @@ class _:
                 for init in ("random", "nvecs", "given"):
                     for ranks in ([min(2, d) for d in shp], [d for d in shp], 1):
                         yield dict(alg="tucker_als", shape=list(shp), order=list(order), init=init, ranks=ranks, seed=rng.randrange(10**6), exact=bool(rng.randrange(2)))
+        # data with mirror structure: a size-2 mode holding two identical slices / a slice and its negative, so that leading
+        # mode vectors are (1, 1)/sqrt 2 and (1, -1)/sqrt 2 (largest and most negative entries of equal size)
+        for mirror in ("same", "negated"):
+            for init in ("random", "nvecs"):
+                for ranks in ([2, 2, 2], [1, 2, 2]):
+                    yield dict(alg="tucker_als", shape=[2, 3, 3], order=[0, 1, 2], init=init, ranks=ranks, seed=rng.randrange(10**6), exact=False, mirror=mirror)
 
     def run(self, case):
         ttb = import_pyttb()
@@ -214,6 +220,9 @@ class _:
                 X = np.moveaxis(np.tensordot(U, X, axes=(1, n)), 0, n)
         else:
             X = _lowrank(rs, shp, 3, noise=0.1)
+        if case.get("mirror"):
+            A = rs.randn(*shp[1:])
+            X = np.stack([A, A if case["mirror"] == "same" else -A])
         T = ttb.tensor(X.copy())
         normX = np.linalg.norm(X)
         init = case["init"]
